@@ -195,6 +195,11 @@ pub fn run(a: &Args) {
             run_case(&mut col, &mut tr, vs, th);
         }
     });
+    spaces::space_large(&cfg, &mut |space, v| {
+        if col.next_case(space) {
+            run_case(&mut col, &mut tr, &[v], false);
+        }
+    });
     col.states = tr.states.clone();
     col.transitions = tr.transitions.clone();
     col.finish(&a.out);
